@@ -276,6 +276,10 @@ def identical(a, b):
 
 
 def equal(a, b):
+    from .values import VGlobal
+
+    if isinstance(a, VGlobal) and isinstance(b, VGlobal):
+        return a.text.split(".")[-1] == b.text.split(".")[-1]
     if is_concrete(a) and is_concrete(b):
         return a == b
     if is_float(a) or is_float(b):
